@@ -31,6 +31,12 @@ claim("C04", "exploration",
       "heap bound derived from the configured cache limit, and leave the receiver usable (a valid session on an unused TSI - and on the same TSI when everything was rejected - is delivered). "
       "Hangs are violations (watchdog). Exploration: absence is not proved.",
       "DESIGN.md section 4 C04")
+claim("C05", "exploration",
+      "exhaustive enumeration of the Content-Location grammar to a depth bound + proptest random strings, delivered through real sessions into ObjectWriterFS inside a watched sandbox tree (invariant: tree outside the destination unchanged)",
+      "All strings of 9 prefixes x up to 4 (quick) / 5 (thorough) segments from the property's 8 segment kinds x 3 outcomes (complete, wrong MD5, interrupted) are enumerated (exhaustive to that depth), plus "
+      "random token strings (non-ASCII, escapes, separators, scheme-like prefixes, absolute sandbox paths). The location travels in a foreign FDT; after every session the tree around the destination "
+      "(canaries at 8 levels, a sibling, a victim file) must be byte-identical, a completed object must be exactly one file inside the destination, a failed one must leave nothing behind.",
+      "DESIGN.md section 4 C05")
 claim("C06", "exploration",
       "exhaustive product of field-width classes + proptest boundary values; differential against an independent RFC codec in both directions (flute builds / reference decodes, reference builds / flute parses) plus flute round-trip",
       "All 9600 combinations of CCI/TSI/TOI width class x close flag x scheme x extension subset are enumerated with 4 boundary value sets each (exhaustive over classes, sampled inside a class); "
